@@ -203,6 +203,22 @@ func checkC05(c *Ctx) {
 				if nr == 1 && !pr.Facts.Has(fNonNil(db+".Error")) {
 					okp = false
 				}
+				// the error Commit/Rollback recorded on the handle survives: no store to db.Error after finishing
+				finished := false
+				for _, n := range pr.Nodes {
+					for _, ce := range evaluatedCalls(n) {
+						if fn, _ := typeutil.Callee(info, ce).(*types.Func); fn == commitM || fn == rollbackM {
+							finished = true
+						}
+					}
+					if as, ok := n.(*ast.AssignStmt); ok && finished {
+						for _, l := range as.Lhs {
+							if canon(info, l) == db+".Error" {
+								rc.Bad(last.Name(), "error store after finishing ("+desc+")", as.Pos(), "db.Error is overwritten after Commit/Rollback ran: a failure of the COMMIT itself is wiped and the operation reports success although nothing was stored")
+							}
+						}
+					}
+				}
 				// pool restored after finishing
 				restored := false
 				for _, n := range pr.Nodes {
